@@ -50,7 +50,15 @@ Proof. exact (mods_max_nil mdata). Qed.
 Theorem C07_max_spec : forall l, sd mdata l -> l <> [] ->
   (exists m, In m l /\ mods_max mdata l = mend m) /\ (forall x, In x l -> mend x <= mods_max mdata l).
 Proof. exact (mods_max_spec mdata). Qed.
+
+(* and without any hypothesis about the list - unsorted, overlapping, empty or inverted ranges, as add_module
+   accepts them - the lookup never answers with a module whose range does not contain the address (holds since
+   the repair of S24: a module registered with an empty range used to be returned for its start address) *)
+Theorem C07_only_a_container : forall l a m rel,
+  find_module mdata l a = Ok (Some (m, rel)) -> In m l /\ contains mdata m a.
+Proof. exact (find_module_only_container mdata). Qed.
 End C07.
+Print Assumptions C07_only_a_container.
 Print Assumptions C07_find_spec.
 Print Assumptions C07_unique_container.
 Print Assumptions C07_add_membership.
@@ -67,3 +75,8 @@ Example C07_example :
 Proof.
   cbn. repeat constructor; cbn; try lia; intros x [<-|[]]; cbn; lia.
 Qed.
+
+(* the input of S24: one module with the empty range [16, 16) - address 16 belongs to no module *)
+Example C07_empty_range_example :
+  find_module unit [mkmod 16 16 16 0 tt] 16 = Ok None.
+Proof. reflexivity. Qed.
